@@ -20,6 +20,16 @@ type Transport interface {
 	Close() error
 }
 
+// SourceAdmitter is implemented by a handler that decides from the source
+// address alone whether a client is answered at all (the access list). The
+// server consults it before any reply it builds ahead of the pipeline —
+// the malformed-QDCOUNT FORMERR and the engines' in-place header
+// rejections — so a source the list denies hears nothing on those paths
+// either.
+type SourceAdmitter interface {
+	AdmitsSource(ip net.IP) bool
+}
+
 // ResponseWriter is the chain-side writer: the pooled wrapper every
 // middleware sees, layered over a Transport.
 type ResponseWriter interface {
